@@ -459,14 +459,18 @@ def _run_live(acc, tier, ps):
             sp = subprocess.Popen([sys.executable, "-c", f"import os; os._exit({v})"])
             want = v
         else:
-            sp = subprocess.Popen([sys.executable, "-c", "import time; time.sleep(60)"])
+            # the child says when its interpreter is up: a signal that lands during start-up (site import, handler
+            # installation) can be swallowed there, which is the child's business and not wait()'s
+            sp = subprocess.Popen([sys.executable, "-c", "import sys, time; print('up', flush=True); time.sleep(120)"],
+                                  stdout=subprocess.PIPE)
+            sp.stdout.readline()
             want = -int(v)
         viols = []
         try:
             p = ps.Process(sp.pid)
             if kind == "sig":
                 os.kill(sp.pid, v)
-            got = p.wait(timeout=30)
+            got = p.wait(timeout=90)
             acc.count("live_children_checked")
             if got != want:
                 viols.append(("live_wrong_exit_value", f"{kind} {v}: got {got!r} want {want}"))
@@ -483,6 +487,8 @@ def _run_live(acc, tier, ps):
                 sp.wait(timeout=5)
             except Exception:  # noqa: BLE001
                 pass
+            if sp.stdout is not None:
+                sp.stdout.close()
         acc.case(dict(live=kind, value=int(v)), True, viols)
 
 
